@@ -152,6 +152,25 @@ let () =
   let cmd = Sys.argv.(1) in
   let lines = read_lines Sys.argv.(2) in
   if cmd = "hist" then (hist_run m_init mstep (fun m -> List.map snd m.m_cont) lines; exit 0);
+  if cmd = "hist-spec" then
+    (hist_run a_init astep
+       (fun a -> List.concat_map (fun (_, l) -> List.filter_map (fun e -> e.a_val) l) a.a_vers) lines; exit 0);
+  if cmd = "hist-kv" then
+    (hist_run [] kvstep (fun s -> List.filter_map snd s) lines; exit 0);
+  if cmd = "hist-h" then begin
+    (* per case: does hypothesis H (no late writes) hold; is it autocommit-only *)
+    let cur = ref [] and id = ref "" in
+    let flush () =
+      if !id <> "" then begin
+        let ops = List.rev !cur in
+        Printf.printf "%s H=%b auto=%b\n" !id (no_late_writes ops) (autocommit_only ops)
+      end in
+    List.iter (fun l ->
+      match split_ws l with
+      | "case" :: i :: _ -> id := i; cur := []
+      | "end" :: _ -> flush (); id := ""
+      | t -> (match op_of_tokens t with Some o -> cur := o :: !cur | None -> ())) lines;
+    exit 0 end;
   let f =
     match cmd with
     | "vlist" -> vlist_case vrun
